@@ -105,6 +105,9 @@ typedef struct {
 				 * right after its queue write, while tp_shutdown() is called: relaxed oracle, see drivers/C05_msg.cpp */
 	uint8_t race_dst, race_flags;
 	uint8_t pool_flags;	/* bit0 TP_S_F_BIND2CPU, bit1 TP_S_F_CLOEXEC */
+	uint8_t selfarg;	/* the very first send of sender 0 passes the callback's own address as argument (checksum cb ^ udata == 0) */
+	uint8_t naops;		/* async-operation helpers: this many tpt_msg_async_op_alloc()/tpt_msg_async_op_cb_free() pairs (see aop[]) */
+	struct { uint8_t alloc_on, dst, free_on; } aop[8];	/* thread indexes; 255 = outside the pool (alloc_on), = NULL i.e. 'current thread' (dst) */
 	uint8_t late_self;	/* the last message of the late burst sends to its own thread (flags 0 and FORCE) after the stop message was processed */
 	uint8_t nsenders;
 	c05_sender senders[C05_MAX_SENDERS];
@@ -116,6 +119,7 @@ typedef struct {
 	uint32_t nsends;	/* total send ids used (senders first, then burst, then late burst) */
 	uint32_t nlate;		/* how many of them belong to the late burst */
 	uint32_t nrace;		/* how many of them raced with tp_shutdown() */
+	uint32_t naop_done;	/* async operations whose alloc and completion calls were issued */
 	uint32_t nself;		/* self-sends issued by the last late-burst callback (the very last ids) */
 	uint64_t tpt_ptr[17];	/* pointer value of each pool thread object, [16] = pvt */
 	tp_res_stats res;
@@ -169,6 +173,7 @@ typedef struct {
 	uint8_t late_calls;	/* bit0 threads_create after shutdown (EBUSY), bit1 attach_first after shutdown (EBUSY) */
 	uint8_t wait_mode;	/* 0 none, 1 outside, 2 from a pool thread first (EDEADLK) then outside, 3 two external threads at once,
 				 * 4 (with attach_first) the formerly attached thread itself, after tp_thread_attach_first() returned */
+	uint8_t hooks_mode;	/* 0 both hooks installed, 1 only the start hook, 2 only the stop hook, 3 none */
 	uint8_t free_fd0;	/* descriptor 0 is closed while the pool lives (a daemon that closed stdin): the pool may own descriptor 0 */
 	uint8_t destroy_in_pool_first; /* tp_destroy from a pool thread before shutdown (must be EDEADLK) */
 	tp_plans plans;		/* schedule plan + resource faults armed from before tp_create */
@@ -185,6 +190,7 @@ typedef struct {
 	uint32_t cb_after_destroy;	/* callbacks observed by the harness counters after destroy returned */
 	uint8_t attached_still_pool_thread;	/* tpt_get_current() != NULL in the foreign thread after tp_thread_attach_first() returned */
 	uint8_t fd0_was_freed;
+	uint32_t ran_mask;		/* worker threads seen running (or starting) right before the shutdown step */
 } c11_out;
 void c11_run(const c11_scn *scn, c11_out *out);
 
@@ -198,7 +204,8 @@ typedef struct {
 	uint64_t data;
 } c06a_op;
 typedef struct {
-	uint8_t ident_kind;	/* 0 valid fd (socketpair end), 1 (uintptr_t)-1, 2 beyond the fd table, 3 arbitrary cookie (timers) */
+	uint8_t ident_kind;	/* 0 valid fd (socketpair end), 1 (uintptr_t)-1, 2 beyond the fd table, 3 arbitrary cookie (timers),
+				 * 4 / 5: 2^32 | fd and 2^63 | fd (not descriptors although their low halves are) */
 	uint8_t cb_null;
 	uint8_t nops;
 	c06a_op ops[C06_MAX_OPS];
@@ -237,6 +244,8 @@ typedef struct {
 typedef struct {
 	uint8_t kind[C06_MAX_CH];	/* 0 unused, 1 read on socketpair, 2 write on socketpair, 3 timer, 4 write on the write end of a pipe (peer = read end) */
 	uint16_t period_ms[C06_MAX_CH];	/* timers */
+	uint8_t timer_ident_of[C06_MAX_CH];	/* timers: 0 = the identifier is an address of the harness; k+1 = the identifier equals the descriptor NUMBER
+					 * of channel k (timer identifiers are user-chosen numbers, e.g. a per-connection timer named after its socket) */
 	uint8_t ncmds;
 	c06b_cmd cmds[C06_MAX_CMDS];
 	tp_plans plans;
